@@ -2,7 +2,7 @@
 
 The wrapped function is a scripted test double: its k-th invocation produces the k-th outcome of a
 sequence over {S success, C caught exception, Cs subclass of caught, U uncaught Exception,
-X CancelledError, B other BaseException}; every value / exception object is unique, so identity
+X CancelledError, XC a CancelledError subclass that is also an instance of the caught class, B other BaseException}; every value / exception object is unique, so identity
 tells which attempt the caller finally saw. A 15-line reference loop predicts: number of
 invocations, the caller's outcome object, the pauses (virtual-clock gaps for async, recorded
 time.sleep calls for sync) and the (attempt, exception) arguments handed to a delay function.
@@ -66,6 +66,10 @@ class Fatal(BaseException):
     pass
 
 
+class CancelledCaught(CaughtErr, asyncio.CancelledError):
+    """a cancellation that is *also* an instance of the caught class (compatibility shims look like this): still a cancellation"""
+
+
 CATCHING = {
     "class": lambda: CaughtErr,
     "tuple": lambda: (OtherCaught, CaughtErr),
@@ -73,7 +77,7 @@ CATCHING = {
     "default": lambda: None,  # retry(...) without catching: every Exception is caught
 }
 DELAYS = ("none", "int", "float", "func", "zero")
-TERMINAL = ("S", "U", "X", "B")
+TERMINAL = ("S", "U", "X", "B", "XC")
 
 
 def sequences(limit: int):  # noqa: ANN201
@@ -88,7 +92,7 @@ def sequences(limit: int):  # noqa: ANN201
 def make_outcome(kind: str, i: int) -> tuple[str, Any]:
     if kind == "S":
         return "value", ("result", i, object())
-    cls = {"C": CaughtErr, "Cs": CaughtSub, "U": Uncaught, "X": asyncio.CancelledError, "B": Fatal}[kind]
+    cls = {"C": CaughtErr, "Cs": CaughtSub, "U": Uncaught, "X": asyncio.CancelledError, "B": Fatal, "XC": CancelledCaught}[kind]
     return "raise", cls(f"attempt-{i}")
 
 
